@@ -58,3 +58,13 @@ Proof. intros u [[] [] []] k s o b H; destruct k; try discriminate; destruct s, 
 Lemma all_off_silent : forall u k o b,
   fst (requests (C false false false) (A k u) SNoTsa o b) = [].
 Proof. intros u k o b. destruct k, o, b; reflexivity. Qed.
+
+(* stapled responses (after fix fb08c71da): a usable, conclusive staple settles revocation without any request;
+   a staple that is present but unusable does not suppress the fetch that verify.ocsp_fetch asks for *)
+Lemma usable_staple_settles : forall u c s o b,
+  existsb is_ocsp (fst (requests c (A AEmbeddedStapled u) s o b)) = false.
+Proof. intros u [[] [] []] s o b; destruct s, o, b; reflexivity. Qed.
+
+Lemma unusable_staple_falls_through : forall u c s b,
+  existsb is_ocsp (fst (requests c (A AEmbeddedStapledUnusable u) s OpRead b)) = ocspf c.
+Proof. intros u [[] [] []] s b; destruct s, b; reflexivity. Qed.
